@@ -131,7 +131,14 @@ def build(harnesses, verbose=False):
         for d in olds[:-3]:
             shutil.rmtree(os.path.join(BUILD, d), ignore_errors=True)
         os.utime(root, None)
-        specs = {h: parse_spec(os.path.join(VERIF, "harness", h + ".cpp")) for h in harnesses}
+        specs = {}
+        for h in harnesses:   # "name@tso" = the same source built as the tso variant (plain accesses instrumented too)
+            base, _, var = h.partition("@")
+            sp = parse_spec(os.path.join(VERIF, "harness", base + ".cpp"))
+            if var:
+                sp["variant"] = var
+            sp["base"] = base
+            specs[h] = sp
         variants = set(s["variant"] for s in specs.values())
         need_tbb = any(s["tbb"] or s["vtbb"] for s in specs.values())
         need_malloc = any(s["malloc"] for s in specs.values())
@@ -163,7 +170,7 @@ def build(harnesses, verbose=False):
         os.makedirs(bdir, exist_ok=True)
         hobjs = {}
         for h, s in specs.items():
-            src = os.path.join(VERIF, "harness", h + ".cpp")
+            src = os.path.join(VERIF, "harness", s["base"] + ".cpp")
             hh = file_hash(src) + ekey[:4]
             for inc in ("vfh.h",):
                 ip = os.path.join(VERIF, "harness", inc)
